@@ -147,6 +147,18 @@ def cases(tier):
         if k % 64 in (0, 1, 63) or tier == "thorough":
             out.append(mk([a, mid, b], "sock:5"))
             out.append(mk([a, mid, b], "buf:7:1"))
+    # UBX frames of every length class of the 16-bit little-endian length field
+    for n in (0, 1, 2, 255, 256, 257, 4095, 4096, 32767, 32768, 32769, 40000, 65535):
+        body = bytes((i * 7 + 3) & 0x7F | 0x01 for i in range(n))
+        it = {"name": f"ubx{n}", "data": items.ubx(body), "kind": "skip"}
+        for kind in ("bytesio", "buf:8192:4096", "buf:7:3", "sock", "sock:9"):
+            out.append(mk([a, it, b], kind))
+        out.append(mk([it, a, it, b], "bytesio"))
+    # 1-byte receives for large frames (a refill loop that costs stack depth per receive)
+    for k in (255, 256, 1000, 1010, 1022, 1023):
+        mid = items.frame_item(f"F{k}", items.unknown_payload(k, 4005, k))
+        out.append(mk([a, mid, b], "sock", bufsize=1))
+        out.append(mk([a, mid, b], "buf:1:1"))
     for t in items.NMEA_TALKERS:
         it = {"name": f"nmea{t}", "data": items.nmea(t), "kind": "skip"}
         for kind in ("bytesio", "sock:9", "buf:2:3"):
